@@ -1,4 +1,4 @@
-import WindVerif.Model.Pool
+import WindVerif.Spec.Pool
 import WindVerif.Drv.Common
 import WindVerif.Drv.Sorted
 namespace WindVerif.Drv
@@ -128,6 +128,8 @@ def poolStep (s : St) (ws : List String) : St × String :=
         (s', s!"{tidName t} {describe s t} # {poolDigest s'} # en:{en}"))
   | ["enabled"] => (s, "en:" ++ joinWith "," ((enabledTids s).map tidName))
   | ["final"] => (s, poolFinal s)
+  | ["inv"] => (s, "inv:" ++ joinWith "," (safeCheck s))
+  | ["life"] => (s, "life:" ++ joinWith "," (lifeCheckAll s))
   | _ => (s, "bad-op")
 
 def poolMachine : Machine :=
